@@ -59,6 +59,28 @@ def _inplace_flag(func, args, kwargs):
         return False
 
 
+_DT_METHODS = {"half": torch.float16, "float": torch.float32, "bfloat16": torch.bfloat16, "double": torch.float64}
+
+
+def _requests_other_dtype(name, args, kwargs):
+    """True when a dtype-move call asks for a dtype different from its (first) quantized operand's."""
+    src = next((a for a in args if is_q(a)), None)
+    if src is None:
+        return False
+    want = None
+    if name in _DT_METHODS:
+        want = _DT_METHODS[name]
+    elif name in ("to", "type"):
+        for a in list(args[1:]) + list(kwargs.values()):
+            if isinstance(a, torch.dtype):
+                want = a
+            elif isinstance(a, torch.Tensor) and want is None and name == "to":
+                want = a.dtype
+    elif name == "type_as" and len(args) > 1 and isinstance(args[1], torch.Tensor):
+        want = args[1].dtype
+    return want is not None and want != src.dtype
+
+
 def fname(func):
     n = getattr(func, "__name__", None)
     if n is None:
@@ -360,7 +382,10 @@ class Monitor:
             return  # float program invalid at this step: not judged
         if real_exc is not None:
             # documented refusals
-            if isinstance(real_exc, ValueError) and any(k.startswith("qbits") for k in okinds) and name in RESCALE:
+            if isinstance(real_exc, ValueError) and any(k.startswith("qbits") for k in okinds) and \
+                    _requests_other_dtype(name, args, kwargs):
+                # documented: the dtype of a packed low-bit tensor cannot be changed (a move that keeps the dtype, or any
+                # other operation, is not covered by that refusal)
                 ctx.count("documented_refusals")
                 return
             if isinstance(real_exc, NotImplementedError) and name == "where" and is_q(args[0] if args else None):
